@@ -29,8 +29,9 @@ def nchunks(tier):
     return 32 if tier == "quick" else 256
 
 
-def _decl(pos, greedy):
-    return optgen.D([optgen.O(b"opt", b"o"), optgen.T(b"tog", b"t"), optgen.M(b"mul", b"m")], pos, greedy)
+def _decl(pos, greedy, greedy_first=False):
+    return optgen.D([optgen.O(b"opt", b"o"), optgen.T(b"tog", b"t"), optgen.M(b"mul", b"m")], pos, greedy,
+                    greedy_first=greedy_first)
 
 
 def gen(tier, seed, chunk, nch):
@@ -39,17 +40,19 @@ def gen(tier, seed, chunk, nch):
     maxlen = 4 if tier == "quick" else 5
     for ci, (pos, greedy) in enumerate(CONFIGS):
         d = _decl(pos, greedy)
+        d2 = _decl(pos, greedy, greedy_first=True)
         for L in range(0, maxlen + 1):
             for seq in itertools.product(PRE, repeat=L):
                 k += 1
                 if k % nch != chunk:
                     continue
-                cases.append({"decl": d, "argv": list(seq), "cfg": ci})
+                # both orders of the two configuration calls (they must commute)
+                cases.append({"decl": d2 if (greedy and k % 2) else d, "argv": list(seq), "cfg": ci})
     rng = random.Random("c12-%d-%d" % (seed, chunk))
     for _ in range((12000 if tier == "quick" else 120000) // nch):
         ci = rng.randrange(len(CONFIGS))
         pos, greedy = CONFIGS[ci]
-        d = _decl(pos, greedy)
+        d = _decl(pos, greedy, greedy_first=rng.random() < 0.5)
         lim = 4 if pos in (None, "inf") else pos
         # aim at the boundary: exactly limit or limit + 1 positionals in most cases
         want = rng.choice([lim, lim, lim + 1, rng.randint(0, lim + 2)])
